@@ -39,6 +39,10 @@ KINDS = {
     "k4": dict(choice=Contest.SOCIAL_CHOICE_FUNCTION.PLURALITY, audit=Audit.AUDIT_TYPE.ONEAUDIT, test=NonnegMean.betting_mart, estim=None, bet=NonnegMean.agrapa, kw={"lam": 0.5}),
     "k5": dict(choice=Contest.SOCIAL_CHOICE_FUNCTION.IRV, audit=Audit.AUDIT_TYPE.POLLING, test=NonnegMean.alpha_mart, estim=None, bet=None, kw={"eta": 0.8}),
 }
+# wide plurality contests: 12 and 28 candidates, i.e. 11 and 27 assertions (more than any fixed small list holds)
+WIDE = {"w12": 12, "w28": 28}
+for _k, _n in WIDE.items():
+    KINDS[_k] = dict(choice=Contest.SOCIAL_CHOICE_FUNCTION.PLURALITY, audit=Audit.AUDIT_TYPE.POLLING, test=NonnegMean.alpha_mart, estim=None, bet=None, kw={"eta": 0.7})
 IRV_JSON = [
     {"winner": "A", "loser": "B", "assertion_type": "WINNER_ONLY", "already_eliminated": ""},
     {"winner": "A", "loser": "C", "assertion_type": "IRV_ELIMINATION", "already_eliminated": ["B"]},
@@ -50,21 +54,34 @@ SAMPLES = {
     "s11": ["clean"] * 11,
     "sx": ["clean"] * 5 + ["over2", "clean"],
     "sy": ["lose", "over1", "clean", "phantom"],
+    "sz": ["lose"] * 5 + ["clean"] * 6,
 }
 OPS = list(SAMPLES) + ["summarize", "reset"]
 
 
 def bounds(tier):
-    return {"contest_sets": "5 singles + 10 pairs" + (" + 10 triples" if tier == "thorough" else ""), "risk_limits": LIMITS, "ops": OPS, "depth": 3 if tier == "quick" else 4, "population_cards": N}
+    return {"contest_sets": "5 singles + 10 pairs + 2 wide single contests (11 and 27 assertions)" + (" + 10 triples" if tier == "thorough" else ""), "risk_limits": LIMITS, "ops": OPS, "depth": 3 if tier == "quick" else 4, "population_cards": N}
+
+
+_LAST = {}
+
+
+def last_loser(k):
+    """the loser of the assertion that make_all_assertions lists LAST for a wide contest (the order comes from a set)"""
+    if k not in _LAST:
+        _LAST[k] = "?"  # placeholder while the contest is built once to read the order
+        con = make_contests((k,), (0.2,))[k]
+        _LAST[k] = list(con.assertions.values())[-1].loser
+    return _LAST[k]
 
 
 def card_votes(kind_of_vote):
-    """votes on a card for all five contests, for vote pattern in {win, lose, blank}"""
+    """votes on a card for all contests, for vote pattern in {win, lose, blank}"""
     if kind_of_vote == "win":
-        return {"k1": {"A": True}, "k2": {"A": True}, "k3": {"A": True}, "k4": {"A": True}, "k5": {"A": 1, "B": 2, "C": 3}}
-    if kind_of_vote == "lose":
-        return {"k1": {"B": True}, "k2": {"C": True}, "k3": {"B": True}, "k4": {"B": True}, "k5": {"B": 1, "C": 2}}
-    return {"k1": {}, "k2": {}, "k3": {}, "k4": {}, "k5": {}}
+        return {"k1": {"A": True}, "k2": {"A": True}, "k3": {"A": True}, "k4": {"A": True}, "k5": {"A": 1, "B": 2, "C": 3}, "w12": {"A": True}, "w28": {"A": True}}
+    if kind_of_vote == "lose":  # in the wide contests the vote goes to the LAST candidate, so the last-listed assertion is the weak one
+        return {"k1": {"B": True}, "k2": {"C": True}, "k3": {"B": True}, "k4": {"B": True}, "k5": {"B": 1, "C": 2}, "w12": {last_loser("w12"): True}, "w28": {last_loser("w28"): True}}
+    return {"k1": {}, "k2": {}, "k3": {}, "k4": {}, "k5": {}, "w12": {}, "w28": {}}
 
 
 def make_sample(name):
@@ -84,7 +101,7 @@ def make_contests(cset, limits):
         K = KINDS[k]
         d[k] = {"name": k, "risk_limit": lim, "cards": N, "choice_function": K["choice"], "n_winners": 1,
                 "share_to_win": 2 / 3 if K["choice"] == Contest.SOCIAL_CHOICE_FUNCTION.SUPERMAJORITY else None,
-                "candidates": ["A", "B", "C"], "winner": ["A"], "assertion_file": "x" if k == "k5" else None, "audit_type": K["audit"],
+                "candidates": (["A"] + [f"Z{i}" for i in range(1, WIDE[k])]) if k in WIDE else ["A", "B", "C"], "winner": ["A"], "assertion_file": "x" if k == "k5" else None, "audit_type": K["audit"],
                 "test": K["test"], "estim": K["estim"], "bet": K["bet"], "test_kwargs": dict(K["kw"]), "g": 0.1, "use_style": True,
                 "sample_size": 100, "sample_threshold": 10 ** 9, "tally": None, "assertion_json": IRV_JSON if k == "k5" else None}
     cons = Contest.from_dict_of_dicts(d)
@@ -216,7 +233,10 @@ def judge_history(cset, limits, hist, feats=None):
 
 
 def configs(tier="quick"):
-    ks = list(KINDS)
+    ks = [k for k in KINDS if k not in WIDE]
+    for k in WIDE:
+        for l in LIMITS:
+            yield (k,), (l,)
     if tier == "thorough":  # every triple of contests with the three limits in every order
         for a, b, c in itertools.combinations(ks, 3):
             for lims in itertools.permutations(LIMITS, 3):
@@ -300,7 +320,7 @@ def run_shard(sh, rec):
 
 def explore(tier, seed):
     depth = 3 if tier == "quick" else 4
-    return core.pmap(run_shard, [("boundary", k) for k in KINDS] + [(c, l, depth) for c, l in configs(tier)], seed, progress="C09")
+    return core.pmap(run_shard, [("boundary", k) for k in KINDS if k not in WIDE] + [(c, l, depth) for c, l in configs(tier)], seed, progress="C09")
 
 
 def run_case(case):
